@@ -68,7 +68,7 @@ ASMJIT_FAVOR_SIZE Error init_call_conv(CallConv& cc, CallConvId call_conv_id, co
         break;
 
       case CallConvId::kVectorCall:
-        cc.set_flags(CallConvFlags::kCalleePopsStack);
+        cc.set_flags(CallConvFlags::kCalleePopsStack | CallConvFlags::kPassFloatsByVec);
         cc.set_passed_order(RegGroup::kGp, kZcx, kZdx);
         cc.set_passed_order(RegGroup::kVec, 0, 1, 2, 3, 4, 5);
         break;
